@@ -30,7 +30,13 @@ class Plain(enum.Enum):
     B = 2
 
 
-ENUMS = {"Color": Color, "Num": Num, "Plain": Plain}
+class Cross(enum.Enum):
+    """the value of each member is the NAME of the other one"""
+    A = "B"
+    B = "A"
+
+
+ENUMS = {"Color": Color, "Num": Num, "Plain": Plain, "Cross": Cross}
 
 
 class PlainObj:
